@@ -33,6 +33,11 @@ def streams(seed, tier):
             pos = [r.randrange(1472 * 8) for _ in range(nf)]
             if r.random() < 0.3:   # cluster flips in the trailing CRC / header
                 pos = [r.choice([r.randrange(40), 10**6 - r.randrange(1, 33)]) for _ in range(nf)]
+            elif r.random() < 0.25:   # all flips inside one of the last bytes before the CRC field (counted from the end)
+                b = r.choice([0, 0, 1, 2, 3])
+                pos = r.sample([32 + 8 * b + k for k in range(8)], nf)
+                add("flip", ["flipend %d %s | %s" % (nf, " ".join(map(str, pos)), frame_spec(r))])
+                continue
             add("flip", ["flip %d %s | %s" % (nf, " ".join(map(str, pos)), frame_spec(r))])
         elif k < 0.85:
             m = r.random()
@@ -92,7 +97,7 @@ def oracle(case_name, ops, out):
         spec = op[3:]
         if len(out) < 2 or out[1] != "read: " + spec:
             return "round trip differs: read(write(f)) = %r" % (out[1][:200] if len(out) > 1 else None)
-    elif op.startswith("flip "):
+    elif op.startswith("flip ") or op.startswith("flipend "):
         m = out[0].split(" ", 2)
         nlen = int(m[1])
         npos = len([p for p in m[2].strip("[]").split(",") if p.strip()])
